@@ -7,5 +7,6 @@ INVARIANT SilentFailure
 INVARIANT SelectorsExclusive
 INVARIANT SourcesEquivalent
 INVARIANT OverflowIsOpen
+INVARIANT ChannelIndependent
 PROPERTY Terminates
 CHECK_DEADLOCK FALSE
